@@ -583,9 +583,9 @@ func (c *Canary) handleTCP(eh *ethernet.Frame, iph *ipv4.Header, data []byte) er
 		// In addition to the processing for the ESTABLISHED state, if
 		// our FIN is now acknowledged then enter FIN-WAIT-2 and continue
 		// processing in that state.
-		state.State = SocketFinWait2
-	} else if state.State == SocketFinWait2 {
-		state.State = SocketTimeWait
+		if hdr.AckNum == state.SendNext {
+			state.State = SocketFinWait2
+		}
 	}
 
 	if state.State == SocketEstablished ||
@@ -651,6 +651,8 @@ func (c *Canary) handleTCP(eh *ethernet.Frame, iph *ipv4.Header, data []byte) er
 			// If our FIN has been ACKed (perhaps in this segment), then
 			// enter TIME-WAIT, start the time-wait timer, turn off the other
 			// timers; otherwise enter the CLOSING state.
+			state.RecvNext++
+			c.send(state, []byte{}, tcp.ACK)
 			state.State = SocketClosing
 		} else if state.State == SocketFinWait2 {
 			state.RecvNext++
